@@ -73,6 +73,7 @@ theorem applySaves_append (a b : List (Key × Checkpoint)) (s : Store) :
 def Reply.refused : Reply → Bool
   | .rejected => true
   | .error (.proc _) => false
+  | .error .killed => false
   | .error _ => true
   | _ => false
 
